@@ -9,6 +9,7 @@ from ..obs import Obs
 from .. import meshes as M
 from .. import zoo, diff
 
+THOROUGH_REPS = 1  # one pass of the thorough tier already replays ~170 000 Jacobian blocks (about 13 min on 16 cores)
 LEVEL = "exploration"
 RULE = ("cases = (model) seeded random public-group models (Geometry with every design variable, AeroPoint incl. ground effect / "
         "right halves / projected area / rotational / compressible / several surfaces, SpatialBeamAlone and AerostructPoint with "
@@ -239,13 +240,15 @@ def replay_events(o, evs, jitter, rng, tags):
                 continue  # a perturbed input the component legitimately cannot take (e.g. singular matrix)
             c = q.model.c
             rtol = 1e-6
+            fd_step = None
             if "fd" in getattr(c, "_approx_schemes", {}):
                 rtol = 1e-4  # the component itself declares forward-difference partials (step 1e-6)
+                fd_step = 1e-6
             rep = diff.reported_jacobian(q)
             nin = sum(v.size for v in inputs.values())
             fd = diff.fd_jacobian(q, skip=skip if kind == "captured" else None, max_cols=None if nin <= 1200 else 400, rng=rng)
             xs = {k: float(np.abs(v).max()) if np.abs(v).max() > 0 else 1.0 for k, v in inputs.items()}
-            diff.compare(o, fam, rep, fd, name, tags=tags + [kind] + opt_tags(ev), rtol=rtol, xscale=xs,
+            diff.compare(o, fam, rep, fd, name, tags=tags + [kind] + opt_tags(ev), rtol=rtol, xscale=xs, fd_step=fd_step,
                          yscale={k: float(np.abs(np.asarray(c._outputs[k])).max()) for k in c._outputs})
             o.count("replays")
             o.count("jacobian_entries_decided", int(sum((np.isfinite(e[0]) & np.isfinite(e[1])).sum() for e in fd.values())))
